@@ -281,7 +281,15 @@ private:
                 return false;
             }
 
-            m_senders_waiting.fetch_add(1, std::memory_order_acq_rel);
+            m_senders_waiting.fetch_add(1, std::memory_order_seq_cst);
+            // Re-check now that the registration is visible: a receiver that
+            // popped (or a close()) before it saw no waiter and did not signal
+            std::atomic_thread_fence(std::memory_order_seq_cst);
+            if (m_closed.load(std::memory_order_acquire) ||
+                m_queue->read_available() < m_capacity) {
+                m_senders_waiting.fetch_sub(1, std::memory_order_acq_rel);
+                continue;
+            }
             int ret = m_send_sem.wait(1, timeout.timeout_us());
             m_senders_waiting.fetch_sub(1, std::memory_order_acq_rel);
 
@@ -315,7 +323,14 @@ private:
                 return false;
             }
 
-            m_receivers_waiting.fetch_add(1, std::memory_order_acq_rel);
+            m_receivers_waiting.fetch_add(1, std::memory_order_seq_cst);
+            // Re-check now that the registration is visible: a sender that
+            // pushed (or a close()) before it saw no waiter and did not signal
+            std::atomic_thread_fence(std::memory_order_seq_cst);
+            if (m_closed.load(std::memory_order_acquire) || !m_queue->empty()) {
+                m_receivers_waiting.fetch_sub(1, std::memory_order_acq_rel);
+                continue;
+            }
             int ret = m_recv_sem.wait(1, timeout.timeout_us());
             m_receivers_waiting.fetch_sub(1, std::memory_order_acq_rel);
 
